@@ -1,2 +1,163 @@
--- placeholder driver (model for C01 not built yet)
-def main : IO Unit := pure ()
+/-
+  Driver for the value-mapping model (C01).  A value is a sequence of tokens in prefix notation:
+    N | T | F | I<int> | D<bits> | S<cps> | B<hex> | Y<hex> | L<n> v*n | U<n> v*n | E<n> v*n | Z<n> v*n
+    | M<n> (k v)*n | C<re>/<im> | G<cps> | Q<cps> | A<ordinal> | X<code>/<hex> | O<cps>/<n> (k v)*n
+  (none, True, False, int, float bits, str, bytes, bytearray, list, tuple, set, frozenset, dict, complex,
+   uuid text, decimal text, date ordinal, msgpack ExtType, instance "module.Class" with vars()).
+  Requests (the configuration is the one extracted from the source, PyroModel/Gen/C01.lean, unless given):
+    res  <ser> <value>             → ok <value> | err <kind>        loads(dumps(v))
+    call <ser> <vargs> <kwargs>    → ok <vargs> <kwargs> | err <kind>   loadsCall(dumpsCall("o","m",vargs,kwargs))
+    arg  <ser> <value>             → ok <value> | err <kind>        argPath
+    kw   <ser> <value>             → ok <value> | err <kind>        kwPath
+    lib  <ser> <value>             → ok <value> | err <kind>        the bare library (no Pyro hooks)
+    spec <ser> <value>             → spec nf=<0|1> lossless=<0|1> pyval=<0|1>   the specification predicates
+    cfg                            → the extracted configuration
+-/
+import PyroModel.Values
+import Driver.Util
+
+open Pyro Pyro.Values Driver
+
+def parseCps (s : String) : Option (List Nat) := parseNatList s
+
+def splitSlash (s : String) : Option (String × String) :=
+  match s.splitOn "/" with
+  | [a, b] => some (a, b)
+  | _ => none
+
+mutual
+def parseVal : Nat → List String → Option (Val × List String)
+  | 0, _ => none
+  | _ + 1, [] => none
+  | fuel + 1, tok :: rest =>
+    let tag := tok.take 1 |>.toString
+    let body := tok.drop 1 |>.toString
+    if tag == "N" then some (.none, rest)
+    else if tag == "T" then some (.bool true, rest)
+    else if tag == "F" then some (.bool false, rest)
+    else if tag == "I" then body.toInt?.map fun z => (.int z, rest)
+    else if tag == "D" then body.toNat?.map fun n => (.float n, rest)
+    else if tag == "S" then (parseCps body).map fun s => (.str s, rest)
+    else if tag == "B" then (hexToBytes body).map fun b => (.bytes b, rest)
+    else if tag == "Y" then (hexToBytes body).map fun b => (.bytearray b, rest)
+    else if tag == "L" then do let n ← body.toNat?; let (xs, r) ← parseVals fuel n rest; some (.list xs, r)
+    else if tag == "U" then do let n ← body.toNat?; let (xs, r) ← parseVals fuel n rest; some (.tuple xs, r)
+    else if tag == "E" then do let n ← body.toNat?; let (xs, r) ← parseVals fuel n rest; some (.set xs, r)
+    else if tag == "Z" then do let n ← body.toNat?; let (xs, r) ← parseVals fuel n rest; some (.frozenset xs, r)
+    else if tag == "M" then do let n ← body.toNat?; let (xs, r) ← parsePairs fuel n rest; some (.dict xs, r)
+    else if tag == "C" then do
+      let (a, b) ← splitSlash body
+      let re ← a.toNat?; let im ← b.toNat?
+      some (.complex re im, rest)
+    else if tag == "G" then (parseCps body).map fun s => (.uuid s, rest)
+    else if tag == "Q" then (parseCps body).map fun s => (.decimal s, rest)
+    else if tag == "A" then body.toNat?.map fun n => (.date n, rest)
+    else if tag == "X" then do
+      let (a, b) ← splitSlash body
+      let code ← a.toNat?; let data ← hexToBytes b
+      some (.ext code data, rest)
+    else if tag == "O" then do
+      let (a, b) ← splitSlash body
+      let cls ← parseCps a; let n ← b.toNat?
+      let (xs, r) ← parsePairs fuel n rest
+      some (.inst cls xs, r)
+    else none
+def parseVals : Nat → Nat → List String → Option (Vals × List String)
+  | 0, _, _ => none
+  | _ + 1, 0, rest => some (.nil, rest)
+  | fuel + 1, n + 1, rest => do
+    let (x, r) ← parseVal fuel rest
+    let (xs, r) ← parseVals fuel n r
+    some (.cons x xs, r)
+def parsePairs : Nat → Nat → List String → Option (Pairs × List String)
+  | 0, _, _ => none
+  | _ + 1, 0, rest => some (.nil, rest)
+  | fuel + 1, n + 1, rest => do
+    let (k, r) ← parseVal fuel rest
+    let (v, r) ← parseVal fuel r
+    let (xs, r) ← parsePairs fuel n r
+    some (.cons k v xs, r)
+end
+
+def valsLen : Vals → Nat
+  | .nil => 0
+  | .cons _ xs => valsLen xs + 1
+def pairsLen : Pairs → Nat
+  | .nil => 0
+  | .cons _ _ xs => pairsLen xs + 1
+
+mutual
+def showVal : Val → List String
+  | .none => ["N"]
+  | .bool true => ["T"]
+  | .bool false => ["F"]
+  | .int z => [s!"I{z}"]
+  | .float n => [s!"D{n}"]
+  | .str s => ["S" ++ natListToString s]
+  | .bytes b => ["B" ++ bytesToHex b]
+  | .bytearray b => ["Y" ++ bytesToHex b]
+  | .list xs => s!"L{valsLen xs}" :: showVals xs
+  | .tuple xs => s!"U{valsLen xs}" :: showVals xs
+  | .set xs => s!"E{valsLen xs}" :: showVals xs
+  | .frozenset xs => s!"Z{valsLen xs}" :: showVals xs
+  | .dict kvs => s!"M{pairsLen kvs}" :: showPairs kvs
+  | .complex re im => [s!"C{re}/{im}"]
+  | .uuid s => ["G" ++ natListToString s]
+  | .decimal s => ["Q" ++ natListToString s]
+  | .date n => [s!"A{n}"]
+  | .ext code data => [s!"X{code}/" ++ bytesToHex data]
+  | .inst cls kvs => ("O" ++ natListToString cls ++ s!"/{pairsLen kvs}") :: showPairs kvs
+def showVals : Vals → List String
+  | .nil => []
+  | .cons x xs => showVal x ++ showVals xs
+def showPairs : Pairs → List String
+  | .nil => []
+  | .cons k v xs => showVal k ++ showVal v ++ showPairs xs
+end
+
+def parseSer : String → Option Ser
+  | "serpent" => some .serpent | "marshal" => some .marshal | "json" => some .json | "msgpack" => some .msgpack
+  | _ => none
+
+def errName : Err → String
+  | .type => "type" | .value => "value" | .overflow => "overflow" | .serialize => "serialize"
+  | .security => "security" | .attribute => "attribute" | .oom => "oom"
+
+def b01 (b : Bool) : String := if b then "1" else "0"
+
+def showRes : Except Err Val → String
+  | .ok v => "ok " ++ " ".intercalate (showVal v)
+  | .error e => "err " ++ errName e
+
+
+def step : List String → String
+  | ["cfg"] =>
+    let c := srcCfg
+    s!"cfg callExtHook={b01 c.callExtHook} resExtHook={b01 c.resExtHook} callObjHook={b01 c.callObjHook} " ++
+    s!"resObjHook={b01 c.resObjHook} callRecreate={b01 c.callRecreate} resRecreate={b01 c.resRecreate} " ++
+    s!"kwNoneSafe={b01 c.kwNoneSafe} good={b01 c.good}"
+  | op :: ser :: toks =>
+    match parseSer ser with
+    | none => "bad-op"
+    | some s =>
+      let fuel := 2 * toks.length + 2
+      match parseVal fuel toks with
+      | none => "bad-op"
+      | some (v, rest) =>
+        if op == "res" ∧ rest.isEmpty then showRes (resRT srcCfg s v)
+        else if op == "arg" ∧ rest.isEmpty then showRes (argPath srcCfg s v)
+        else if op == "kw" ∧ rest.isEmpty then showRes (kwPath srcCfg s v)
+        else if op == "lib" ∧ rest.isEmpty then showRes (libMap s v)
+        else if op == "spec" ∧ rest.isEmpty then
+          s!"spec nf={b01 (nf s v)} lossless={b01 (lossless v)} pyval={b01 (pyval v)}"
+        else if op == "call" then
+          match parseVal fuel rest with
+          | some (k, []) =>
+            match callRT srcCfg s v k with
+            | .ok (a, k') => "ok " ++ " ".intercalate (showVal a ++ showVal k')
+            | .error e => "err " ++ errName e
+          | _ => "bad-op"
+        else "bad-op"
+  | _ => "bad-op"
+
+def main : IO Unit := runDriver step
